@@ -23,6 +23,8 @@ ENTRY = ["partitura.io.exportmidi:save_performance_midi", "partitura.io.importmi
 
 
 def run(ctx):
+    from ..rules import extra as _X4
+    _X4.rule_validators_accept_valid(ctx)
     G.rule_F7a(ctx, [ctx.prog.func(q) for q in ENTRY])
     M.rule_F7h_tempo(ctx)
     X.rule_no_order_read_before_sort(ctx)
